@@ -92,6 +92,13 @@ g * %global
 c %global
 x *
 """,
+    # 5: a rule written in negated form without %order_reverse: it also ranks the positive command it negates
+    """
+y *
+a
+x *
+undo u k1 *
+""",
 ]
 
 SLOTS_Q = [S(["a"]), S(["x k1"]), S(["y k1"]), S(["m"]), S(["u k1 v1", "u k1 v2"]),
@@ -99,6 +106,8 @@ SLOTS_Q = [S(["a"]), S(["x k1"]), S(["y k1"]), S(["m"]), S(["u k1 v1", "u k1 v2"
 SLOTS_T = [S(["a", "a v"]), S(["x k1"]), S(["x k2"]), S(["y k1", "y k1 v"]), S(["m"]), S(["u k1 v1", "u k1 v2"]),
            S(["b k1"], [S(["c v1", "c v2"]), S(["d k1"]), S(["g 1"])]), S(["g 2"])]
 SLOTS = SLOTS_Q if rt.TIER == "quick" else SLOTS_T
+# order_config only: a block no ordering rule mentions whose children look like commands of the enclosing level
+SLOTS_OC = SLOTS + [S(["w 1"], [S(["y k9"]), S(["a"]), S(["x k9"])])]
 VENDOR = "huawei"
 PREFIX = "undo"
 
@@ -410,7 +419,8 @@ def h_shipped(case: int) -> bool:
 
 # ---------------------------------------------------------------- order_config
 OC = [(v, i) for v in sorted(C) for i in range(len(C[v]["trees"]))]
-OLO, OHI = rt.shard_range(len(OC) + len(ORDERS) * N)
+N_OC = count(SLOTS_OC)
+OLO, OHI = rt.shard_range(len(OC) + len(ORDERS) * N_OC)
 
 
 def _ms(t):
@@ -513,7 +523,7 @@ def h_order_config(case: int) -> bool:
             oi, ti = k % len(ORDERS), k // len(ORDERS)
             cx = ctx(oi)
             orderer = Orderer(cx["rb"]["ordering"], cx["hw"].vendor)
-            ok, detail, kind, nt = check_order_config(orderer, unrank(SLOTS, ti), cx["order"])
+            ok, detail, kind, nt = check_order_config(orderer, unrank(SLOTS_OC, ti), cx["order"])
             cs = {"order": oi, "tree_idx": ti, "tier": rt.TIER}
             fp = "C08:order_config:synthetic:%s" % kind
         rt.record(cs, ok, cs if nt else None, detail=detail, fingerprint=fp)
@@ -569,7 +579,7 @@ def replay(obligation, case):
             v = case["vendor"]
             ok, detail, kind, _ = check_order_config(Orderer.from_hw(C[v]["hw"]), C[v]["trees"][case["tree"]], None)
             return {"ok": ok, "detail": detail, "fingerprint": "C08:order_config:%s" % kind if kind == "unmentioned-negated-rows-float-first" else "C08:order_config:%s:%s" % (v, kind)}
-        slots = SLOTS_Q if case.get("tier", "quick") == "quick" else SLOTS_T
+        slots = (SLOTS_Q if case.get("tier", "quick") == "quick" else SLOTS_T) + SLOTS_OC[-1:]
         cx = ctx(case["order"])
         ok, detail, kind, _ = check_order_config(Orderer(cx["rb"]["ordering"], cx["hw"].vendor), unrank(slots, case["tree_idx"]), cx["order"])
         return {"ok": ok, "detail": detail, "fingerprint": "C08:order_config:synthetic:%s" % kind}
